@@ -1215,6 +1215,33 @@ def oracleC16 (p : Parsed) (ex : Option Expect) (fs : List (String × String)) :
     else none
   | _, _ => none
 
+/-- C12 on one transcoded request: a timeout the client supplied (as the model reads it off the client's own
+    header) reaches the backend in the target protocol's header, with a value that does not exceed it. -/
+def oracleC12 (p : Parsed) (fs : List (String × String)) : Option String :=
+  match branchOf p with
+  | .transcoded o =>
+    if fieldOf fs "disp" != "svc" then none else
+    match o.reqMeta.timeout with
+    | none => none
+    | some d =>
+      let bh := parseHdrField (fieldOf fs "bh")
+      let got : Option (Option Int) := match o.sform with
+        | .grpc | .grpcWeb =>
+          let v := bh.get (s "Grpc-Timeout")
+          some (match v.getLast?, parseInt64 v.dropLast with
+            | some u, some num => if grpcUnit u == 0 || num < 0 then none else some (num * grpcUnit u)
+            | _, _ => none)
+        | .connectStream | .connectUnary =>
+          some (match parseInt64 (bh.get (s "Connect-Timeout-Ms")) with
+            | some n => if n < 0 then none else some (n * 1000000)
+            | none => none)
+        | .rest => none
+      match got with
+      | none => none
+      | some none => some "the client's timeout did not reach the backend (no readable timeout header of the target protocol)"
+      | some (some b) => if b > (if d < 0 then 0 else d) then some "the backend was given a longer timeout than the client's" else none
+  | _ => none
+
 def specE2E (prop : String) (hexJson : String) (res : List String) : String :=
   match (fromHex hexJson).bind (fun b => (Json.parse (bytesToString b)).toOption) |>.bind parseScenario with
   | none => "nospec"
@@ -1229,6 +1256,7 @@ def specE2E (prop : String) (hexJson : String) (res : List String) : String :=
       | "C13" => some (oracleC13 p res)
       | "C02" => some (oracleC02 p fs (parseExpect p.json).isSome)
       | "C19" => some (oracleC19 p fs)
+      | "C12" => some (oracleC12 p fs)
       | "C09" => some (oracleC09 p fs)
       | "C10" => (parseExpect p.json).map fun ex => oracleC10 p ex fs
       | "C01" => (parseExpect p.json).map fun ex => oracleC01 p ex fs
